@@ -882,6 +882,11 @@ def main(tier, replay=None):
     if replay:
         return do_replay(run, replay)
     proof_ok = run.proof_stage()
+    # second tie (space-charge formulas): re-translated from REPO's source text and proved equal to SpaceCharge/{Igf,Cic,Hockney}.v (Gen/ScGenEquiv.v)
+    import translate_stage_sc
+    trx = translate_stage_sc.translator_obligation_sc(run)
+    if trx["status"] != "ok":
+        run.notes.append("translator obligation (space charge): " + json.dumps(translate_stage_sc.replay_fields_sc(trx))[:600])
     if proof_ok:
         for tgt in ("theories/SpaceCharge/CicCheck.vo", "theories/SpaceCharge/HockneyCheck.vo"):
             ok, log = common.coq_build(tgt)
@@ -1029,6 +1034,8 @@ def main(tier, replay=None):
         else:
             rep = dict(kind="correspondence", broken="case file did not compile: " + corr_err[-600:])
         run.violation(rep, no_input=True)
+    elif trx["status"] != "ok":
+        run.violation(translate_stage_sc.replay_fields_sc(trx), no_input=True)
     elif not proof_ok:
         run.violation({"kind": "proof", "broken": run.proof_problem}, no_input=True)
     return run.finish("partial")
